@@ -18,6 +18,7 @@ type GuardAlloc struct {
 	arena    []byte
 	base     uintptr
 	next     uintptr // offset of the next unused page
+	rwTo     uintptr // poison-only mode: arena is accessible up to this offset
 	protect  bool
 	live     map[uintptr]*block
 	freed    map[uintptr]*block
@@ -39,27 +40,67 @@ type block struct {
 	freedS int64
 }
 
-const arenaSize = 1 << 28 // 256 MiB of address space per run
+const arenaSize = 1 << 27 // 128 MiB of address space, shared by the runs of one process
+
+// The arena is mapped once per process and recycled between runs: within a
+// run no address is ever reused, across runs the (already faulted-in) pages
+// are. Fresh anonymous pages are expensive in this VM.
+var procArena []byte
+var procArenaDirty uintptr // prefix whose page protections are mixed (left by an mprotect-mode run)
+var procArenaRW uintptr    // prefix that is readable and writable (left by a poison-only run)
 
 func NewGuardAlloc(env *Env, protect bool) *GuardAlloc {
-	mem, err := syscall.Mmap(-1, 0, arenaSize, syscall.PROT_NONE, syscall.MAP_ANON|syscall.MAP_PRIVATE|syscall.MAP_NORESERVE)
-	if err != nil {
-		panic(fmt.Sprintf("guard allocator: mmap: %v", err))
+	if procArena == nil {
+		mem, err := syscall.Mmap(-1, 0, arenaSize, syscall.PROT_NONE, syscall.MAP_ANON|syscall.MAP_PRIVATE|syscall.MAP_NORESERVE)
+		if err != nil {
+			panic(fmt.Sprintf("guard allocator: mmap: %v", err))
+		}
+		procArena = mem
 	}
-	return &GuardAlloc{
-		arena:   mem,
-		base:    uintptr(unsafe.Pointer(&mem[0])),
+	g := &GuardAlloc{
+		arena:   procArena,
+		base:    uintptr(unsafe.Pointer(&procArena[0])),
 		protect: protect,
 		live:    map[uintptr]*block{},
 		freed:   map[uintptr]*block{},
 		env:     env,
 	}
+	reset := func(n uintptr, prot int) {
+		if n > 0 {
+			if err := syscall.Mprotect(procArena[:n], prot); err != nil {
+				panic(fmt.Sprintf("guard allocator: mprotect reset: %v", err))
+			}
+		}
+	}
+	if protect {
+		n := procArenaDirty
+		if procArenaRW > n {
+			n = procArenaRW
+		}
+		reset(n, syscall.PROT_NONE)
+		procArenaDirty, procArenaRW = 0, 0
+	} else {
+		if procArenaDirty > 0 {
+			n := procArenaDirty
+			if procArenaRW > n {
+				n = procArenaRW
+			}
+			reset(n, syscall.PROT_READ|syscall.PROT_WRITE)
+			procArenaRW, procArenaDirty = n, 0
+		}
+		g.rwTo = procArenaRW
+	}
+	return g
 }
 
-// Release unmaps the arena. Called after the run (nothing may touch it later).
+// Release ends the use of the arena by this run (nothing may touch it later).
 func (g *GuardAlloc) Release() {
 	if g.arena != nil {
-		syscall.Munmap(g.arena)
+		if g.protect {
+			procArenaDirty = (g.next + pageSize - 1) &^ (pageSize - 1)
+		} else {
+			procArenaRW = g.rwTo
+		}
 		g.arena = nil
 	}
 }
@@ -88,14 +129,47 @@ func (g *GuardAlloc) Malloc(size int) unsafe.Pointer {
 	if g.next+need > uintptr(len(g.arena)) {
 		panic("guard allocator: arena exhausted")
 	}
-	off := g.next
-	g.next += need
-	region := g.arena[off : off+uintptr(pages)*pageSize]
-	if err := syscall.Mprotect(region, syscall.PROT_READ|syscall.PROT_WRITE); err != nil {
-		panic(fmt.Sprintf("guard allocator: mprotect rw: %v", err))
-	}
 	asize := (size + 7) &^ 7
-	addr := g.base + off + uintptr(pages)*pageSize - uintptr(asize)
+	var addr uintptr
+	if g.protect {
+		off := g.next
+		g.next += need
+		region := g.arena[off : off+uintptr(pages)*pageSize]
+		if err := syscall.Mprotect(region, syscall.PROT_READ|syscall.PROT_WRITE); err != nil {
+			panic(fmt.Sprintf("guard allocator: mprotect rw: %v", err))
+		}
+		addr = g.base + off + uintptr(pages)*pageSize - uintptr(asize)
+	} else {
+		// poison-only mode: blocks are packed with a red zone in between; the
+		// arena is made accessible in 1 MiB steps (no system call per block)
+		const redzone = 64
+		need = uintptr(asize + redzone)
+		if g.next+need > uintptr(len(g.arena)) {
+			panic("guard allocator: arena exhausted")
+		}
+		for g.next+need > g.rwTo {
+			step := uintptr(1 << 20)
+			if g.rwTo+step > uintptr(len(g.arena)) {
+				step = uintptr(len(g.arena)) - g.rwTo
+			}
+			if err := syscall.Mprotect(g.arena[g.rwTo:g.rwTo+step], syscall.PROT_READ|syscall.PROT_WRITE); err != nil {
+				panic(fmt.Sprintf("guard allocator: mprotect rw: %v", err))
+			}
+			g.rwTo += step
+		}
+		addr = g.base + g.next
+		g.next += need
+		rz := unsafe.Slice((*byte)(unsafe.Pointer(addr+uintptr(asize))), redzone)
+		for i := range rz {
+			rz[i] = 0xCC
+		}
+		pages = 0
+	}
+	// recycled pages hold data of earlier runs: every block starts with the same pattern
+	fresh := unsafe.Slice((*byte)(unsafe.Pointer(addr)), asize)
+	for i := range fresh {
+		fresh[i] = 0xAA
+	}
 	var seq int64
 	if g.env != nil {
 		seq = g.env.S.Stamp()
@@ -193,6 +267,16 @@ func (g *GuardAlloc) CheckPoison() {
 		return
 	}
 	for _, b := range g.order {
+		asz := (b.size + 7) &^ 7
+		rz := unsafe.Slice((*byte)(unsafe.Pointer(b.addr+uintptr(asz))), 64)
+		for i, c := range rz {
+			if c != 0xCC {
+				g.fail("C04", "write-past-end/"+b.class, "red zone behind %s block of %d bytes modified at offset %d", b.class, b.size, i)
+				break
+			}
+		}
+	}
+	for _, b := range g.order {
 		if b.freedS == 0 && g.live[b.addr] != nil {
 			continue
 		}
@@ -234,6 +318,10 @@ func (g *GuardAlloc) DescribeAddr(a uintptr) (string, bool) {
 	for _, b := range g.order {
 		start := (b.addr - g.base) &^ (pageSize - 1)
 		end := start + uintptr(b.pages+1)*pageSize
+		if b.pages == 0 {
+			start = b.addr - g.base
+			end = start + uintptr((b.size+7)&^7) + 64
+		}
 		off := a - g.base
 		if off >= start && off < end {
 			st := "live"
